@@ -20,8 +20,8 @@ ASSUMPTIONS = [
 
 EPS_OF = {"float32": 2.0 ** -23, "float64": 2.0 ** -52}
 # (1e-30 x 1e-31 and 1e-300 x 1e-200: both arguments non-zero, their product v*sqrt(t) underflows to 0 in float32 / float64)
-TS = [0.0, 1e-300, 1e-30, 1e-12, 1e-6, 0.1, 1.0]
-VS = [0.0, 1e-200, 1e-31, 1e-12, 1e-3, 0.2]
+TS = [0.0, -0.0, 1e-300, 1e-30, 1e-12, 1e-6, 0.1, 1.0]
+VS = [0.0, -0.0, 1e-200, 1e-31, 1e-12, 1e-3, 0.2]
 SS = [0.0, 1e-9, -1e-9, 0.01, -0.01, 0.3, -0.3, 3.0, -3.0]
 DMS = [0.0, 1e-9, 0.05, 0.5, 4.0]
 KS = [1.0, 0.5, 2.0]
@@ -381,7 +381,7 @@ META = {
 
 SUBS = [
     Sub("boundary_grid", check_grid,
-        rule="exhaustive grid: (t,v) in {0,1e-12,1e-6,0.1,1}x{0,1e-12,1e-3,0.2} with v*sqrt(t)<=1e-5, strikes {1,0.5,2}, dtypes f32/f64, "
+        rule="exhaustive grid: (t,v) in {0,-0.0,1e-300,1e-30,1e-12,1e-6,0.1,1}x{0,-0.0,1e-200,1e-31,1e-12,1e-3,0.2} with v*sqrt(t)<=1e-5, strikes {1,0.5,2}, dtypes f32/f64, "
              "argument shapes vector/0-dim/broadcast; each case evaluates 23 price/delta functions and modules on 45 (log-moneyness, "
              "running max) points incl. 0, +-1e-9, +-3. Every case is non-trivial (all elements have t=0, v=0 or tiny w).",
         enumerate=grid_cases, exhaustive=True),
